@@ -349,6 +349,7 @@ func specLkAfter(kind, lk int) int {
 //@   ensures ok && $private ==> uint32(len(name)) == le32(m.mapping.Data, int(off)+8)&0xffffff
 //@   ensures ok ==> next == le32(m.mapping.Data, int(off)+12)
 //@   ensures ok ==> v != nil
+//@   ensures ok && $private ==> v.Load() == le64(m.mapping.Data, int(off))
 //@   ensures !ok ==> v == nil && next == 0 && len(name) == 0
 //@   ensures $private ==> unchanged(m.mapping.Data)
 // ... and every record that lies inside the data and has a non-empty name is
@@ -414,6 +415,10 @@ func specLkAfter(kind, lk int) int {
 //@   loop 2: decreases int(numHash)-int(i)
 //@   loop 3: invariant 0 <= n && n <= maxLinks+1
 //@   loop 3: decreases maxLinks+1-n
+// Faithfulness of one step: the pair added for a record is the (decoded) name
+// bytes of that record and the 8-byte little-endian value stored in it.
+//@   at call DecodeStack#1: assert arg0 == bytes(data, int(off)+16, len(ename))
+//@   at call Load#1: after assert result == le64(data, int(off))
 //@   modifies nothing
 
 // ---------------------------------------------------------------------------
